@@ -236,6 +236,9 @@ func c11Body(x *explore.Ctx, server, deflate bool, nctl int, withClose, withRead
 		})
 	}
 	s.Run()
+	for _, t := range s.Trace {
+		x.Logf("schedule: %s", t)
+	}
 
 	// ---- oracles
 	key := func(what string) string {
